@@ -111,8 +111,9 @@ type sess struct {
 	dead  bool
 	label string
 
-	sysXfer bool // a plain transfer to aergo.system was executed in this session
-	not39   bool // a voteBP with a candidate length != 39 was executed
+	view    *view // the state observed after the last operation
+	sysXfer bool  // a plain transfer to aergo.system was executed in this session
+	not39   bool  // a voteBP with a candidate length != 39 was executed
 }
 
 var dbSeq int
@@ -185,7 +186,8 @@ func (s *sess) emit(op, res string, nontrivial bool) {
 		s.run.Count("panic-in-execution")
 		return
 	}
-	s.run.Op(op, res+" | "+s.obs(), nontrivial)
+	s.view = s.look()
+	s.run.Op(op, res+" | "+s.show(s.view), nontrivial)
 }
 
 // ---------------------------------------------------------------- observation (canonical state)
@@ -399,8 +401,6 @@ func showNames(m map[string][2][]byte) string {
 	return joinC(xs)
 }
 
-func (s *sess) obs() string { return s.show(s.look()) }
-
 func (s *sess) show(v *view) string {
 	var st []string
 	for a, r := range v.stakes {
@@ -565,12 +565,12 @@ func (s *sess) stake(a *acct, amt *big.Int) {
 	if s.dead {
 		return
 	}
-	pre := s.look()
+	pre := s.view
 	op := fmt.Sprintf("stake %s %d %s", hx(a.addr), s.h, amt)
 	res := s.sysTx(a, amt, `{"Name":"v1stake"}`)
 	s.emit(op, res, res == "ok")
 	s.run.Count("stake:" + res)
-	post := s.look()
+	post := s.view
 	// lock_rules: refused iff within the delay / below the minimum (other refusal: balance)
 	rec := pre.stakes[hx(a.addr)]
 	cur := new(big.Int)
@@ -596,7 +596,7 @@ func (s *sess) unstake(a *acct, amt *big.Int) {
 	if s.dead {
 		return
 	}
-	pre := s.look()
+	pre := s.view
 	op := fmt.Sprintf("unstake %s %d %s", hx(a.addr), s.h, amt)
 	res := s.sysTx(a, amt, `{"Name":"v1unstake"}`)
 	s.emit(op, res, res == "ok")
@@ -604,7 +604,7 @@ func (s *sess) unstake(a *acct, amt *big.Int) {
 	if s.dead {
 		return
 	}
-	post := s.look()
+	post := s.view
 	rec := pre.stakes[hx(a.addr)]
 	refuse := true
 	if rec != nil && rec.GetAmountBigInt().Sign() > 0 {
@@ -673,7 +673,7 @@ func (s *sess) voteBP(a *acct, cands [][]byte) {
 	if s.dead {
 		return
 	}
-	pre := s.look()
+	pre := s.view
 	var enc, hs []string
 	aligned := 0
 	for _, c := range cands {
@@ -704,7 +704,7 @@ func (s *sess) voteBP(a *acct, cands [][]byte) {
 	if s.dead {
 		return
 	}
-	post := s.look()
+	post := s.view
 	s.voteRule(op, "voteBP", a, pre, post, res)
 	if res == "ok" {
 		for _, r := range pre.votes {
@@ -750,7 +750,7 @@ func (s *sess) voteDAO(a *acct, id string, args []string) {
 	if s.dead {
 		return
 	}
-	pre := s.look()
+	pre := s.view
 	var enc, hs []string
 	enc = append(enc, `"`+id+`"`)
 	for _, x := range args {
@@ -768,7 +768,7 @@ func (s *sess) voteDAO(a *acct, id string, args []string) {
 	if s.dead {
 		return
 	}
-	post := s.look()
+	post := s.view
 	s.voteRule(op, strings.ToUpper(id), a, pre, post, res)
 	if res == "ok" {
 		for _, i := range daoIDs {
@@ -784,7 +784,7 @@ func (s *sess) transfer(from *acct, to []byte, amt *big.Int) {
 	if s.dead {
 		return
 	}
-	pre := s.look()
+	pre := s.view
 	op := fmt.Sprintf("transfer %s %s %s", hx(from.addr), hx(to), amt)
 	res := s.execTx(from.addr, from.addr, to, amt, types.TxType_TRANSFER, "")
 	if res == "ok" && bytes.Equal(to, sysAddr) && amt.Sign() > 0 {
@@ -792,7 +792,7 @@ func (s *sess) transfer(from *acct, to []byte, amt *big.Int) {
 	}
 	s.emit(op, res, res == "ok")
 	s.run.Count("transfer:" + res)
-	post := s.look()
+	post := s.view
 	if res != "ok" {
 		s.unchanged(op, pre, post)
 	}
@@ -813,12 +813,12 @@ func (s *sess) nameCreate(a *acct, n string, amt *big.Int) {
 		return
 	}
 	s.useName(n)
-	pre := s.look()
+	pre := s.view
 	op := fmt.Sprintf("namecreate %s %s %s", hx(a.addr), hx([]byte(n)), amt)
 	res := s.execTx(a.addr, a.addr, nmAddr, amt, types.TxType_GOVERNANCE, `{"Name":"v1createName","Args":["`+n+`"]}`)
 	s.emit(op, res, res == "ok")
 	s.run.Count("namecreate:" + res)
-	post := s.look()
+	post := s.view
 	_, was := pre.namesB[n]
 	if res == "ok" {
 		now, ok := post.namesB[n]
@@ -849,12 +849,12 @@ func (s *sess) nameUpdate(txAcc []byte, sender *acct, n string, to string, toRaw
 		return
 	}
 	s.useName(n)
-	pre := s.look()
+	pre := s.view
 	op := fmt.Sprintf("nameupdate %s %s %s %s %s", hx(txAcc), hx(sender.addr), hx([]byte(n)), hx(toRaw), amt)
 	res := s.execTx(txAcc, sender.addr, nmAddr, amt, types.TxType_GOVERNANCE, `{"Name":"v1updateName","Args":["`+n+`","`+to+`"]}`)
 	s.emit(op, res, res == "ok")
 	s.run.Count("nameupdate:" + res)
-	post := s.look()
+	post := s.view
 	if res == "ok" {
 		before, was := pre.namesB[n]
 		if !(bytes.Equal(txAcc, []byte(n)) || (was && bytes.Equal(txAcc, before[0]))) || amt.Cmp(system.GetNamePrice()) < 0 {
@@ -874,12 +874,12 @@ func (s *sess) setOwner(by *acct, owner *acct) {
 	if s.dead {
 		return
 	}
-	pre := s.look()
+	pre := s.view
 	op := fmt.Sprintf("setowner %s", hx(owner.addr))
 	res := s.execTx(by.addr, by.addr, nmAddr, new(big.Int), types.TxType_GOVERNANCE, `{"Name":"v1setOwner","Args":["`+types.EncodeAddress(owner.addr)+`"]}`)
 	s.emit(op, res, res == "ok")
 	s.run.Count("setowner:" + res)
-	post := s.look()
+	post := s.view
 	if res != "ok" {
 		s.unchanged(op, pre, post)
 	}
@@ -917,7 +917,7 @@ func (s *sess) endBlock(next uint64) {
 	s.bs = s.sdb.NewBlockState(s.sdb.GetRoot())
 	s.emit("endblock", "ok", false)
 	s.run.Count("endblock")
-	v := s.look()
+	v := s.view
 	// the rank reloaded from the *committed* state by a fresh state db
 	fresh := s.sdb.OpenNewStateDB(s.sdb.GetRoot())
 	fscs, err := statedb.GetSystemAccountState(fresh)
@@ -949,7 +949,7 @@ func (s *sess) restart() {
 	}
 	s.emit("restart", "ok", false)
 	s.run.Count("restart")
-	s.inv(s.look())
+	s.inv(s.view)
 }
 
 // ---------------------------------------------------------------- GInv on the real state
@@ -1416,10 +1416,8 @@ func (s *sess) randomSession(steps int, tiePool bool) {
 			}
 			s.nameUpdate(txAcc, sender, n, to, toRaw, amt)
 		case k < 91:
-			o := s.accts[rng.Intn(len(s.accts))]
-			if !bytes.Equal(o.addr, a.addr) {
-				s.setOwner(a, o)
-			}
+			// the new owner may be the sender itself (repaired by 583738ca: the live sender record is credited)
+			s.setOwner(a, s.accts[rng.Intn(len(s.accts))])
 		default:
 			s.endBlock(s.pickH(rng))
 			if rng.Chance(1, 6) {
